@@ -153,5 +153,8 @@ pub fn no_panic<T>(f: impl FnOnce() -> T + std::panic::UnwindSafe) -> Option<T> 
 }
 
 pub fn silence_panics() {
+    if std::env::var("VERIF_SHOW_PANIC").is_ok() {
+        return;
+    }
     std::panic::set_hook(Box::new(|_| {}));
 }
